@@ -511,4 +511,195 @@ theorem redirectStdLogAt_matches_source (P : Par) (lg : Val) (level : Int) (flag
       simp [redirectStdLogAt_body, hok, errV]
     exact ⟨_, _, hfin _ _ h, by simp [errV]⟩
 
+/-! ### `open`: every path is tried; on any failure everything that was opened is closed -/
+
+structure OA where
+  w : List Val
+  c : List Val
+  e : List Val
+  ev : List Val
+
+def openFmt : Val := .bytes [111, 112, 101, 110, 32, 115, 105, 110, 107, 32, 37, 113, 58, 32, 37, 119]
+
+/-- one path: the registry is asked (recorded); a sink that opened is remembered twice (to write to, to close); a failure
+    is appended to the error and the loop goes on -/
+def openStep (P : Par) (a : OA) (p : Val) : OA :=
+  if (P.newSink p).2.isEmpty then
+    ⟨a.w ++ [.list (P.newSink p).1], a.c ++ [.list (P.newSink p).1], a.e, a.ev ++ [.list [TransOpen.nm "sinkRegistry.newSink", p]]⟩
+  else
+    ⟨a.w, a.c, a.e ++ [.list [TransOpen.nm "fmt.Errorf", openFmt, p, .list (P.newSink p).2]],
+      a.ev ++ [.list [TransOpen.nm "sinkRegistry.newSink", p]]⟩
+
+def oaJunk : Option (Val × Val × Val) → Env
+  | none => []
+  | some (p, s, e) => [("l3", p), ("l4", s), ("l5", e)]
+
+theorem open_loop_matches_source (P : Par) (p0 : Val) (rec : Stmt → State → GoMini.Out) :
+    ∀ (ps : List Val) (a : OA) (i : Nat) (t : Option (Val × Val × Val)),
+    ∃ t', rangeRun (execS (X P) rec openAll_loop0.rbody) .blank (.loc "l3") ps i
+        ⟨[("p0", p0), ("l0", .list a.w), ("l1", .list a.c), ("l2", .list a.e)] ++ oaJunk t, [("ev", .list a.ev)]⟩ =
+      .normal ⟨[("p0", p0), ("l0", .list (ps.foldl (openStep P) a).w), ("l1", .list (ps.foldl (openStep P) a).c),
+          ("l2", .list (ps.foldl (openStep P) a).e)] ++ oaJunk t', [("ev", .list (ps.foldl (openStep P) a).ev)]⟩
+  | [], a, i, t => ⟨t, by simp [rangeRun]⟩
+  | p :: r, a, i, t => by
+    obtain ⟨t', hrest⟩ := open_loop_matches_source P p0 rec r (openStep P a p) (i + 1)
+      (some (p, .list (P.newSink p).1, .list (P.newSink p).2))
+    refine ⟨t', ?_⟩
+    cases he : (P.newSink p).2 with
+    | nil =>
+      have hst : openStep P a p = ⟨a.w ++ [.list (P.newSink p).1], a.c ++ [.list (P.newSink p).1], a.e,
+          a.ev ++ [.list [TransOpen.nm "sinkRegistry.newSink", p]]⟩ := by simp [openStep, he]
+      rw [hst, he] at hrest
+      cases t <;>
+        simp [rangeRun, openAll_loop0, Stmt.rbody, oaJunk, he, nm_newSink, State.assign1, Env.set, hst] <;>
+        simpa [oaJunk, openAll_loop0, Stmt.rbody, nm_newSink] using hrest
+    | cons e es =>
+      have hp : ¬ ((es.length : Int) + 1 = 0) := by omega
+      have hst : openStep P a p = ⟨a.w, a.c, a.e ++ [.list [TransOpen.nm "fmt.Errorf", openFmt, p, .list (e :: es)]],
+          a.ev ++ [.list [TransOpen.nm "sinkRegistry.newSink", p]]⟩ := by simp [openStep, he]
+      rw [hst, he] at hrest
+      cases t <;>
+        simp [rangeRun, openAll_loop0, Stmt.rbody, oaJunk, he, hp, nm_newSink, State.assign1, Env.set, hst, errV, openFmt] <;>
+        simpa [oaJunk, openAll_loop0, Stmt.rbody, nm_newSink, errV, openFmt] using hrest
+
+/-- the cleanup loop: `Close` on every sink that was opened, in the order they were opened -/
+theorem open_close_matches_source (P : Par) (rec : Stmt → State → GoMini.Out) (p0 w c e : Val) (t0 : Option (Val × Val × Val)) :
+    ∀ (cs : List Val) (ev : List Val) (i : Nat) (t : Option Val),
+    ∃ t', rangeRun (execS (X P) rec openAll_loop1.rbody) .blank (.loc "l6") cs i
+        ⟨[("p0", p0), ("l0", w), ("l1", c), ("l2", e)] ++ oaJunk t0 ++ (match t with | some v => [("l6", v)] | none => []),
+          [("ev", .list ev)]⟩ =
+      .normal ⟨[("p0", p0), ("l0", w), ("l1", c), ("l2", e)] ++ oaJunk t0 ++ (match t' with | some v => [("l6", v)] | none => []),
+        [("ev", .list (ev ++ cs.map fun c => .list [TransOpen.nm "Sink.Close", c]))]⟩ := by
+  intro cs
+  induction cs with
+  | nil => intro ev i t; exact ⟨t, by cases t <;> simp [rangeRun]⟩
+  | cons x r ih =>
+    intro ev i t
+    obtain ⟨t', h⟩ := ih (ev ++ [.list [TransOpen.nm "Sink.Close", x]]) (i + 1) (some x)
+    refine ⟨t', ?_⟩
+    cases t0 <;> cases t <;>
+      simp [rangeRun, openAll_loop1, Stmt.rbody, oaJunk, nm_close, State.assign1, Env.set, List.append_assoc] <;>
+      simpa [oaJunk, openAll_loop1, Stmt.rbody, nm_close, List.append_assoc] using h
+
+set_option maxRecDepth 8000 in
+/-- **open_matches_source**: every path is handed to the registry, in order, whatever happened before; if all opened,
+    the sinks and a close function holding exactly them are returned and nothing is closed; if any failed, every sink that
+    did open is closed (in order) before the combined error is returned with nil writers and a nil close function -/
+theorem open_matches_source (P : Par) (ps : List Val) (ev : List Val) (fuel : Nat) :
+    ∃ res ev', run (X P) (fuel + 1) "openAll" [.list ps] [("ev", .list ev)] = .done res [("ev", .list ev')] ∧
+      (if (ps.foldl (openStep P) ⟨[], [], [], ev⟩).e.isEmpty then
+         (∃ text, res = [.list (ps.foldl (openStep P) ⟨[], [], [], ev⟩).w,
+                         .list [text, .list (ps.foldl (openStep P) ⟨[], [], [], ev⟩).c], .list []]) ∧
+         ev' = (ps.foldl (openStep P) ⟨[], [], [], ev⟩).ev
+       else res = [.list [], .list [], .list (ps.foldl (openStep P) ⟨[], [], [], ev⟩).e] ∧
+         ev' = (ps.foldl (openStep P) ⟨[], [], [], ev⟩).ev ++
+           (ps.foldl (openStep P) ⟨[], [], [], ev⟩).c.map fun c => .list [TransOpen.nm "Sink.Close", c]) := by
+  have hfin : ∀ (res : List Val) (fl : Env),
+      (exec (X P) (fuel + 1) openAll_body ⟨[("p0", .list ps)], [("ev", .list ev)]⟩).fin = some (res, fl) →
+      run (X P) (fuel + 1) "openAll" [.list ps] [("ev", .list ev)] = .done res fl :=
+    fun res fl h => run_of_fin (X P) _ _ Gen.TransOpen.openAll _ _ _ _ rfl rfl h
+  obtain ⟨t1, hloop⟩ := open_loop_matches_source P (.list ps) (exec (X P) fuel) ps ⟨[], [], [], ev⟩ 0 none
+  generalize hR : ps.foldl (openStep P) ⟨[], [], [], ev⟩ = R at hloop ⊢
+  obtain ⟨w, c, e, ev1⟩ := R
+  have hL0 : openAll_loop0 = .range .blank (.loc "l3") (.loc "p0") openAll_loop0.rbody := rfl
+  have hL1 : openAll_loop1 = .range .blank (.loc "l6") (.loc "l1") openAll_loop1.rbody := rfl
+  have hb : openAll_body = .seq openAll_body.hd (.seq openAll_body.tl.hd (.seq openAll_body.tl.tl.hd
+      (.seq openAll_body.tl.tl.tl.hd (.seq openAll_loop0 openAll_body.tl.tl.tl.tl.tl)))) := rfl
+  have hpre : ∀ k : State → GoMini.Out,
+      (execS (X P) (exec (X P) fuel) openAll_body ⟨[("p0", .list ps)], [("ev", .list ev)]⟩) =
+      (rangeRun (execS (X P) (exec (X P) fuel) openAll_loop0.rbody) .blank (.loc "l3") ps 0
+        ⟨[("p0", .list ps), ("l0", .list []), ("l1", .list []), ("l2", .list [])], [("ev", .list ev)]⟩).andThen
+        (execS (X P) (exec (X P) fuel) openAll_body.tl.tl.tl.tl.tl) := by
+    intro _
+    rw [hb]
+    simp only [execS_seq]
+    simp [openAll_body, Stmt.hd, Stmt.tl]
+    rw [hL0, execS_range]
+    rfl
+  simp only [oaJunk, List.append_nil] at hloop
+  cases e with
+  | nil =>
+    have h : ∃ text, (exec (X P) (fuel + 1) openAll_body ⟨[("p0", .list ps)], [("ev", .list ev)]⟩).fin =
+        some ([.list w, .list [text, .list c], .list []], [("ev", .list ev1)]) := by
+      generalize hE : (exec (X P) (fuel + 1) openAll_body ⟨[("p0", .list ps)], [("ev", .list ev)]⟩).fin = E
+      rw [exec_succ, hpre (fun σ => .normal σ), hloop] at hE
+      cases t1 <;> simp [openAll_body, Stmt.tl, oaJunk] at hE <;> (subst hE; exact ⟨_, rfl⟩)
+    obtain ⟨text, h⟩ := h
+    exact ⟨_, _, hfin _ _ h, by simp⟩
+  | cons e0 es =>
+    have hp : ¬ ((es.length : Int) + 1 = 0) := by omega
+    obtain ⟨t2, hclose⟩ := open_close_matches_source P (exec (X P) fuel) (.list ps) (.list w) (.list c) (.list (e0 :: es)) t1
+      c ev1 0 none
+    have h : (exec (X P) (fuel + 1) openAll_body ⟨[("p0", .list ps)], [("ev", .list ev)]⟩).fin =
+        some ([.list [], .list [], .list (e0 :: es)],
+          [("ev", .list (ev1 ++ c.map fun c => .list [TransOpen.nm "Sink.Close", c]))]) := by
+      rw [exec_succ, hpre (fun σ => .normal σ), hloop]
+      simp only [Out.andThen_normal]
+      simp only [List.append_nil] at hclose
+      have hx : ∀ σ, execS (X P) (exec (X P) fuel) openAll_loop1 σ =
+          execS (X P) (exec (X P) fuel) (.range .blank (.loc "l6") (.loc "l1") openAll_loop1.rbody) σ := fun _ => rfl
+      cases t1 <;>
+        (simp [openAll_body, Stmt.tl, oaJunk, hp, hx] at hclose ⊢
+         rw [hclose]
+         cases t2 <;> simp)
+    exact ⟨_, _, hfin _ _ h, by simp⟩
+
+/-- does the registry open this path? -/
+def opens (P : Par) (p : Val) : Bool := (P.newSink p).2.isEmpty
+
+theorem open_fold (P : Par) : ∀ (ps : List Val) (a : OA),
+    (ps.foldl (openStep P) a).w = a.w ++ (ps.filter (opens P)).map (fun p => .list (P.newSink p).1) ∧
+    (ps.foldl (openStep P) a).c = a.c ++ (ps.filter (opens P)).map (fun p => .list (P.newSink p).1) ∧
+    (ps.foldl (openStep P) a).e = a.e ++ (ps.filter (fun p => !opens P p)).map
+      (fun p => .list [TransOpen.nm "fmt.Errorf", openFmt, p, .list (P.newSink p).2]) ∧
+    (ps.foldl (openStep P) a).ev = a.ev ++ ps.map (fun p => .list [TransOpen.nm "sinkRegistry.newSink", p])
+  | [], a => by simp
+  | p :: r, a => by
+    obtain ⟨h1, h2, h3, h4⟩ := open_fold P r (openStep P a p)
+    simp only [List.foldl_cons]
+    rw [h1, h2, h3, h4]
+    cases h : opens P p <;> simp [opens] at h <;> simp [openStep, opens, h]
+
+theorem openedIdx_length : ∀ (outs : List Bool) (i : Nat), (OpenBuild.openedIdx i outs).length = (outs.filter id).length
+  | [], _ => rfl
+  | true :: r, i => by simp [OpenBuild.openedIdx, openedIdx_length r]
+  | false :: r, i => by simp [OpenBuild.openedIdx, openedIdx_length r]
+
+/-- **open_is_openAll**: the fold the source computes is the hand model `OpenBuild.openAll` on the outcomes
+    `outs[i] = (path i opened)`: it fails exactly when the model fails, the sinks it holds are those of the paths that opened
+    (in path order, as many as the model's `opened`), both returned lists are those sinks, every path reached the registry -/
+theorem open_is_openAll (P : Par) (ps : List Val) (ev : List Val) :
+    let R := ps.foldl (openStep P) ⟨[], [], [], ev⟩
+    let M := OpenBuild.openAll (ps.map (opens P))
+    R.e.isEmpty = !M.err ∧
+    R.c = (ps.filter (opens P)).map (fun p => .list (P.newSink p).1) ∧ R.w = R.c ∧
+    M.opened.length = R.c.length ∧
+    (M.err = true → M.closed = M.opened ∧ M.returned = []) ∧ (M.err = false → M.closed = [] ∧ M.returned = M.opened) ∧
+    R.ev = ev ++ ps.map (fun p => .list [TransOpen.nm "sinkRegistry.newSink", p]) := by
+  obtain ⟨hw, hc, he, hev⟩ := open_fold P ps ⟨[], [], [], ev⟩
+  simp only [List.nil_append] at hw hc he
+  refine ⟨?_, hc, by rw [hw, hc], ?_, ?_, ?_, hev⟩
+  · rw [he]
+    simp only [OpenBuild.openAll]
+    cases hall : (ps.map (opens P)).all id
+    · simp only [Bool.false_eq_true, if_false, Bool.not_true]
+      simp only [List.all_map, List.all_eq_false] at hall
+      obtain ⟨x, hx, hxo⟩ := hall
+      cases hf : List.filter (fun p => !opens P p) ps with
+      | nil =>
+        have := List.filter_eq_nil_iff.mp hf x hx
+        simp at hxo this; simp [this] at hxo
+      | cons _ _ => simp
+    · simp only [if_true, Bool.not_false]
+      simp only [List.all_map, List.all_eq_true] at hall
+      have : List.filter (fun p => !opens P p) ps = [] := by
+        apply List.filter_eq_nil_iff.mpr
+        intro a ha; have := hall a ha; simp at this; simp [this]
+      simp [this]
+  · rw [hc]
+    simp only [OpenBuild.openAll]
+    split <;> simp [openedIdx_length, List.filter_map, Function.comp_def]
+  · simp only [OpenBuild.openAll]; split <;> simp
+  · simp only [OpenBuild.openAll]; split <;> simp
+
 end ZapVerif.C19
